@@ -32,7 +32,7 @@ NAMES = ["locally_linear_embedding", "lle", "local_tangent_space_alignment", "lt
 BAD = ["unknown-method", "misspelt-method", "unknown-neighbors-method", "unknown-eigen-method", "td=0", "td=-3", "k=2", "k=0", "negative-width",
        "negative-timesteps"]
 GOOD = ["pca-default", "k=3", "td=1", "width-small", "timesteps=1"]
-MALFORMED = ["ragged-short", "ragged-long", "ragged-last", "ragged-junk-token", "empty-file", "blank-lines", "no-final-newline", "whitespace-padding",
+MALFORMED = ["ragged-short", "ragged-long", "ragged-last", "ragged-compensating", "ragged-random", "ragged-junk-token", "empty-file", "blank-lines", "no-final-newline", "whitespace-padding",
              "single-sample", "single-column", "missing-input-file"]
 
 
@@ -85,7 +85,7 @@ def gen(tier, seed):
     for rep in range(4 if thorough else 1):
         for w in ["bad:" + b for b in BAD] + ["good:" + g for g in GOOD]:
             cases.append(dict(kind="exit", ctx="exit", which=w, N=rnd.choice([15, 30]), D=3, dseed=rnd.randrange(1 << 30), timeout=300))
-        for w in MALFORMED:
+        for w in MALFORMED + ["ragged-compensating", "ragged-random", "ragged-random"]:
             cases.append(dict(kind="malformed", ctx="malformed", which=w, N=rnd.choice([8, 20]), D=rnd.choice([2, 4]), dseed=rnd.randrange(1 << 30),
                               method=rnd.choice(["pca", "mds", "passthru"]), timeout=300))
     for i, c in enumerate(cases):
